@@ -51,6 +51,7 @@ Inductive val :=
 | VOpt (o : option val)
 | VRange (lo hi : option nat)
 | VIter (ps : list place) (lo n : nat)
+| VChunks (q : place) (cs n total : nat)   (* `q.chunks_exact_mut(cs)`: n whole chunks of a slice of length total *)
 | VFmt (out : list string).
 
 Definition env := list (string * val).
@@ -91,6 +92,7 @@ Definition in_range (i n : nat) : bool := i <? n.
 Definition fits (lo len n : nat) : bool := lo + len <=? n.
 Definition len_eq (a b : nat) : bool := a =? b.
 Definition le_ok (a b : nat) : bool := a <=? b.
+Definition ndiv (a b : nat) : nat := a / b.      (* kept folded on symbolic lengths *)
 
 Definition splice (lo len : nat) (s b : list N) : list N := firstn lo b ++ s ++ skipn (lo + len) b.
 
@@ -379,6 +381,8 @@ Definition iter_item (ps : list place) (i : nat) : val :=
   | [q] => VRef (PIdx q i)
   | _ => VTuple (pmap (fun q => VRef (PIdx q i)) ps)
   end.
+
+Definition chunk_item (q : place) (cs : nat) (i : nat) : val := VRef (PSlice q (i * cs) cs).
 
 Definition arg_name (k : nat) : string :=
   match k with 0 => "$a0" | 1 => "$a1" | 2 => "$a2" | 3 => "$a3" | 4 => "$a4" | 5 => "$a5" | _ => "$a?" end.
@@ -723,6 +727,11 @@ Section Interp.
                   for_each (seq a (b - a)) (LF p body VNat) e
               | Some (VIter ps lo n) =>
                   for_each (seq lo n) (LF p body (iter_item ps)) e
+              | Some (VRef pc) =>                               (* `for chunk in &mut chunks` *)
+                  match rd e pc with
+                  | Some (VChunks q cs n _) => for_each (seq 0 n) (LF p body (chunk_item q cs)) e
+                  | _ => None
+                  end
               | _ => None
               end)
         | ETry x => ev e x
@@ -781,6 +790,42 @@ Section Interp.
                             match wr e p (VCell (xor_in2out c k)) with Some e' => Some (Norm e' (RV VUnit)) | None => None end
                         | _ => None
                         end
+                    | _, _ => None
+                    end
+                  else if m =s "split_at_mut" then
+                    match as_place e r, data_of e rs with
+                    | Some q, Some [vk] =>
+                        match to_nat vk, rd e q with
+                        | Some k, Some v =>
+                            match vlen v with
+                            | Some total =>
+                                if le_ok k total
+                                then Some (Norm e (RV (VTuple [VRef (PSlice q 0 k); VRef (PSlice q k (total - k))])))
+                                else None
+                            | None => None
+                            end
+                        | _, _ => None
+                        end
+                    | _, _ => None
+                    end
+                  else if m =s "chunks_exact_mut" then
+                    match as_place e r, data_of e rs with
+                    | Some q, Some [vk] =>
+                        match to_nat vk, rd e q with
+                        | Some cs, Some v =>
+                            match vlen v with
+                            | Some total =>
+                                if in_range 0 cs then Some (Norm e (RV (VChunks q cs (ndiv total cs) total))) else None
+                            | None => None
+                            end
+                        | _, _ => None
+                        end
+                    | _, _ => None
+                    end
+                  else if m =s "into_remainder" then
+                    match as_data e r, rs with
+                    | Some (VChunks q cs n total), [] =>
+                        Some (Norm e (RV (VRef (PSlice q (n * cs) (total - n * cs)))))
                     | _, _ => None
                     end
                   else if m =s "iter_mut" then
